@@ -62,6 +62,7 @@ type Options struct {
 	NoProm          bool
 	ConnectFunc     forwarder.ConnectFunc
 	Tweak           func(cfg *forwarder.HTTPProxyConfig, tcfg *forwarder.HTTPTransportConfig)
+	FastPathSockets bool                     // the proxy's sockets offer ReadFrom / WriteTo like *net.TCPConn (simnet.Net.FastPath)
 	TweakTransport  func(tr *http.Transport) // last word on the transport (e.g. the wiring of another package)
 	TransportCAPEM  []byte // root CA the proxy's transport trusts (data: URI is built from it)
 	Insecure        bool
@@ -97,6 +98,9 @@ func Start(o Options) (*World, error) {
 	}
 	if o.Addr != "" {
 		w.Addr = o.Addr
+	}
+	if o.FastPathSockets {
+		w.Net.FastPath = true
 	}
 	forwarder.VerifListen = func(addr string) (net.Listener, error) { return w.Net.Listen(addr) }
 	forwarder.VerifDial = w.Net.Dial
